@@ -49,7 +49,7 @@ type UniversalDecoder struct {
 }
 
 func (_this *UniversalDecoder) Decode(reader io.Reader, eventReceiver events.DataEventReceiver) error {
-	bufReader := bufio.NewReader(reader)
+	bufReader := bufio.NewReader(&stickyErrorReader{reader: reader})
 	firstByte, err := bufReader.Peek(1)
 	if err != nil {
 		return err
